@@ -97,6 +97,7 @@ KNOWN_UNDECIDED = {
     "C02": {"r2set2_3": "history rows precomputed as a Python list and walked with enumerate(zip(rows, rows[1:])): no loop summary"},
     "C03": {"r2set2_3": "same"},
     "C07": {"r2set2_3": "same"},
+    "C20": {"r4set3_1": "verbosity tables replaced by one IntEnum (`_Verbosity(v).name`, `_Verbosity.__members__.get(name)`): no literal table to read"},
 }
 
 
